@@ -81,3 +81,286 @@ def metadata_core(u: Unit, props_sanitize=('C08', 'C03', 'C04', 'C12')):
          ])},
          ensures=[Clause('S1_reserved_names_stripped_everything_else_kept', 'sanitized_of(r@, self.headers@)')])
     u.close('}')
+
+
+STATUS_SPEC = r'''
+// ---- independent tables (gRPC statuscodes.md / http-grpc-status-mapping.md / PROTOCOL-HTTP2.md), no tonic code ----
+pub open spec fn code_num(c: Code) -> int {
+    match c {
+        Code::Ok => 0, Code::Cancelled => 1, Code::Unknown => 2, Code::InvalidArgument => 3, Code::DeadlineExceeded => 4,
+        Code::NotFound => 5, Code::AlreadyExists => 6, Code::PermissionDenied => 7, Code::ResourceExhausted => 8,
+        Code::FailedPrecondition => 9, Code::Aborted => 10, Code::OutOfRange => 11, Code::Unimplemented => 12,
+        Code::Internal => 13, Code::Unavailable => 14, Code::DataLoss => 15, Code::Unauthenticated => 16,
+    }
+}
+pub open spec fn code_of_num(i: int) -> Code {
+    if i == 0 { Code::Ok } else if i == 1 { Code::Cancelled } else if i == 3 { Code::InvalidArgument } else if i == 4 { Code::DeadlineExceeded }
+    else if i == 5 { Code::NotFound } else if i == 6 { Code::AlreadyExists } else if i == 7 { Code::PermissionDenied }
+    else if i == 8 { Code::ResourceExhausted } else if i == 9 { Code::FailedPrecondition } else if i == 10 { Code::Aborted }
+    else if i == 11 { Code::OutOfRange } else if i == 12 { Code::Unimplemented } else if i == 13 { Code::Internal }
+    else if i == 14 { Code::Unavailable } else if i == 15 { Code::DataLoss } else if i == 16 { Code::Unauthenticated } else { Code::Unknown }
+}
+// decimal text of 0..=99 without leading zero
+pub open spec fn dec_text(n: int) -> Seq<u8> {
+    if n < 10 { seq![(48 + n) as u8] } else { seq![(48 + n / 10) as u8, (48 + n % 10) as u8] }
+}
+// the code a grpc-status value denotes: the decimal text of 0..=16, anything else is UNKNOWN
+pub open spec fn code_of_bytes(b: Seq<u8>) -> Code {
+    if b.len() == 1 && 48 <= b[0] <= 57 { code_of_num(b[0] - 48) }
+    else if b.len() == 2 && b[0] == 49 && 48 <= b[1] <= 54 { code_of_num(10 + (b[1] - 48)) }
+    else { Code::Unknown }
+}
+pub proof fn lemma_code_roundtrip(c: Code)
+    ensures code_of_bytes(dec_text(code_num(c))) == c, code_of_num(code_num(c)) == c
+{}
+// http-grpc-status-mapping.md, as quoted in the property statement
+pub open spec fn code_of_http(sc: http::StatusCode) -> Code {
+    if sc.0 == 400 { Code::Internal } else if sc.0 == 401 { Code::Unauthenticated } else if sc.0 == 403 { Code::PermissionDenied }
+    else if sc.0 == 404 { Code::Unimplemented } else if sc.0 == 429 || sc.0 == 502 || sc.0 == 503 || sc.0 == 504 { Code::Unavailable }
+    else { Code::Unknown }
+}
+// h2 error code (RFC 7540 numbering) to gRPC code, PROTOCOL-HTTP2.md "Errors"; FRAME_SIZE_ERROR(6), STREAM_CLOSED(5) and
+// HTTP_1_1_REQUIRED(13) are not named by the property statement and are left unconstrained here
+pub open spec fn h2_constrained(r: u32) -> bool { r != 5 && r != 6 && r <= 12 }
+pub open spec fn code_of_h2(r: u32) -> Code {
+    if r == 8 { Code::Cancelled } else if r == 7 { Code::Unavailable } else if r == 11 { Code::ResourceExhausted }
+    else if r == 12 { Code::PermissionDenied } else { Code::Internal }
+}
+
+// the three header names a status is spelled with
+pub open spec fn status_names(k: Seq<char>) -> bool { k == "grpc-status"@ || k == "grpc-message"@ || k == "grpc-status-details-bin"@ }
+'''
+
+STATUS_REL = r'''
+// WRITING: what add_header must leave in the map (from the property: code as decimal, message percent-encoded, details
+// base64 without padding, user metadata minus reserved names, everything else untouched)
+pub open spec fn written(s: Status, pre: HMap, post: HMap) -> bool {
+    &&& post.contains_key("grpc-status"@) && post["grpc-status"@] == seq![dec_text(code_num(s.code))]
+    &&& s.message@.len() > 0 ==> post.contains_key("grpc-message"@) && post["grpc-message"@] == seq![pct_enc(utf8(s.message@))]
+    &&& s.details@.len() > 0 ==> post.contains_key("grpc-status-details-bin"@) && post["grpc-status-details-bin"@] == seq![b64_enc(false, s.details@)]
+    &&& forall|k: Seq<char>| !(k == "grpc-status"@) && !(k == "grpc-message"@ && s.message@.len() > 0) && !(k == "grpc-status-details-bin"@ && s.details@.len() > 0) ==>
+            (#[trigger] post.contains_key(k) <==> ((s.metadata.headers@.contains_key(k) && !is_reserved(k)) || pre.contains_key(k)))
+            && (post.contains_key(k) ==> post[k] == (if s.metadata.headers@.contains_key(k) && !is_reserved(k) { s.metadata.headers@[k] } else { pre[k] }))
+}
+// READING: total; what from_header_map must answer for ANY header map
+pub open spec fn msg_ok(h: HMap) -> bool { !h.contains_key("grpc-message"@) || utf8_valid(pct_dec(h["grpc-message"@][0])) }
+pub open spec fn det_ok(h: HMap) -> bool { !h.contains_key("grpc-status-details-bin"@) || b64_dec(h["grpc-status-details-bin"@][0]) is Some }
+pub open spec fn read(h: HMap, r: Option<Status>) -> bool {
+    &&& r is None <==> !h.contains_key("grpc-status"@)
+    &&& r matches Some(st) ==> {
+        &&& msg_ok(h) && det_ok(h) ==> {
+            &&& st.code == code_of_bytes(h["grpc-status"@][0])
+            &&& st.message@ == (if h.contains_key("grpc-message"@) { utf8_str(pct_dec(h["grpc-message"@][0])) } else { Seq::<char>::empty() })
+            &&& st.details@ == (if h.contains_key("grpc-status-details-bin"@) { b64_dec(h["grpc-status-details-bin"@][0])->Some_0 } else { Seq::<u8>::empty() })
+        }
+        &&& !(msg_ok(h) && det_ok(h)) ==> st.code == Code::Unknown
+        &&& st.metadata.headers@ =~= h.remove("grpc-status"@).remove("grpc-message"@).remove("grpc-status-details-bin"@)
+    }
+}
+// ROUND TRIP (C04): a status written into an empty map and read back is the same status; its metadata comes back minus
+// the reserved names. (Metadata that itself uses one of the three status header names is outside this lemma.)
+pub proof fn lemma_status_roundtrip(s: Status, h: HMap, r: Option<Status>)
+    requires
+        written(s, Map::<Seq<char>, Seq<Seq<u8>>>::empty(), h), read(h, r),
+        forall|k: Seq<char>| status_names(k) ==> !s.metadata.headers@.contains_key(k),
+    ensures
+        r is Some, r->Some_0.code == s.code, r->Some_0.message@ == s.message@, r->Some_0.details@ == s.details@,
+        sanitized_of(r->Some_0.metadata.headers@, s.metadata.headers@),
+{
+    broadcast use axiom_pct_roundtrip, axiom_b64_roundtrip;
+    lemma_names_distinct();
+    lemma_utf8_roundtrip(s.message@);
+    lemma_code_roundtrip(s.code);
+    let st = r->Some_0;
+    assert(status_names("grpc-status-details-bin"@) && status_names("grpc-message"@) && status_names("grpc-status"@));
+    assert(!h.contains_key("grpc-message"@) <==> s.message@.len() == 0);
+    assert(!h.contains_key("grpc-status-details-bin"@) <==> s.details@.len() == 0);
+    assert(s.message@.len() == 0 ==> s.message@ =~= Seq::<char>::empty());
+    assert(s.details@.len() == 0 ==> s.details@ =~= Seq::<u8>::empty());
+    let rm = st.metadata.headers@;
+    let sm = s.metadata.headers@;
+    assert forall|k: Seq<char>| #[trigger] rm.contains_key(k) <==> (sm.contains_key(k) && !is_reserved(k)) by {
+        if status_names(k) { assert(!sm.contains_key(k)); assert(!rm.contains_key(k)); }
+        else { assert(rm.contains_key(k) <==> h.contains_key(k)); }
+    }
+    assert forall|k: Seq<char>| #[trigger] rm.contains_key(k) implies rm[k] == sm[k] by {
+        assert(!status_names(k));
+        assert(h.contains_key(k));
+    }
+}
+'''
+
+STATUS_SHIMS = r'''
+// A-h2-01: h2::Reason is a u32 newtype with the RFC 7540 constants; h2::Error::reason() is the reset reason if any
+#[derive(PartialEq, Eq, Clone, Copy, Debug, Structural)]
+pub struct Reason(pub u32);
+impl Reason {
+    pub const NO_ERROR: Reason = Reason(0);
+    pub const PROTOCOL_ERROR: Reason = Reason(1);
+    pub const INTERNAL_ERROR: Reason = Reason(2);
+    pub const FLOW_CONTROL_ERROR: Reason = Reason(3);
+    pub const SETTINGS_TIMEOUT: Reason = Reason(4);
+    pub const STREAM_CLOSED: Reason = Reason(5);
+    pub const FRAME_SIZE_ERROR: Reason = Reason(6);
+    pub const REFUSED_STREAM: Reason = Reason(7);
+    pub const CANCEL: Reason = Reason(8);
+    pub const COMPRESSION_ERROR: Reason = Reason(9);
+    pub const CONNECT_ERROR: Reason = Reason(10);
+    pub const ENHANCE_YOUR_CALM: Reason = Reason(11);
+    pub const INADEQUATE_SECURITY: Reason = Reason(12);
+    pub const HTTP_1_1_REQUIRED: Reason = Reason(13);
+}
+pub mod h2 {
+    pub use crate::Reason;
+    pub struct Error { pub reason: Option<Reason> }
+    impl Error {
+        pub fn reason(&self) -> (r: Option<Reason>) ensures r == self.reason { self.reason }
+    }
+    impl vstd::std_specs::convert::FromSpecImpl<Reason> for Error {
+        open spec fn obeys_from_spec() -> bool { true }
+        open spec fn from_spec(v: Reason) -> Self { Error { reason: Some(v) } }
+    }
+    impl From<Reason> for Error { fn from(t: Reason) -> (r: Error) { Error { reason: Some(t) } } }
+}
+pub struct SourceBox { pub id: Ghost<int> }
+// A-core-04: B::default() is some fixed value of B (the empty body)
+pub trait DefaultBody: Sized { spec fn default_spec() -> Self; fn default() -> (r: Self) ensures r == Self::default_spec(); }
+impl HasBytes for Vec<u8> { open spec fn bytes_view(&self) -> Seq<u8> { self@ } }
+impl Bytes {
+    // A-bytes-22: Bytes::copy_from_slice / From<Vec<u8>> keep the bytes
+    #[verifier::external_body]
+    pub fn copy_from_slice(s: &[u8]) -> (r: Bytes) ensures r@ == s@ { unimplemented!() }
+}
+impl vstd::std_specs::convert::FromSpecImpl<Vec<u8>> for Bytes {
+    open spec fn obeys_from_spec() -> bool { true }
+    open spec fn from_spec(v: Vec<u8>) -> Self { Bytes { v } }
+}
+impl From<Vec<u8>> for Bytes { fn from(v: Vec<u8>) -> (r: Bytes) { Bytes { v } } }
+// A-bytes-23: &bytes[..] is the whole content
+impl vstd::std_specs::core::IndexSpecImpl<core::ops::RangeFull> for Bytes {
+    open spec fn index_req(&self, idx: &core::ops::RangeFull) -> bool { true }
+}
+impl core::ops::Index<core::ops::RangeFull> for Bytes {
+    type Output = [u8];
+    #[verifier::external_body]
+    fn index(&self, r: core::ops::RangeFull) -> (o: &[u8]) ensures o@ == self@ { unimplemented!() }
+}
+// A-core-03: impl Into<String> for the message arguments (String, &str) keeps the text
+pub trait IntoString { spec fn text(&self) -> Seq<char>; fn into(self) -> (r: String) ensures r@ == self.text(); }
+impl IntoString for String { open spec fn text(&self) -> Seq<char> { self@ } fn into(self) -> (r: String) { self } }
+impl<'a> IntoString for &'a str { open spec fn text(&self) -> Seq<char> { self@ }
+    #[verifier::external_body] fn into(self) -> (r: String) { unimplemented!() } }
+// A-pct-03: percent_encode is called with tonic's ENCODING_SET (CONTROLS + space " # % < > ` ? { }); that this set escapes every
+// byte HeaderValue rejects (and '%') is checked on the real constant by the complete Kani harness kx::encoding_set
+pub const ENCODING_SET: &'static AsciiSet = &AsciiSet { x: 0 };
+pub exec const GRPC_CONTENT_TYPE: HeaderValue ensures GRPC_CONTENT_TYPE@ == ascii_bytes("application/grpc"@) { HeaderValue::from_static("application/grpc") }
+'''
+
+
+# Contracts of tonic's own functions that several units rely on.  Unit `status` PROVES them on the real bodies (same
+# clause text, see units/status.py); other units link them as assumed contracts A-tonic-status-nn.
+EMPTY = 'Map::<Seq<char>, Seq<Seq<u8>>>::empty()'
+CT = 'seq![ascii_bytes("application/grpc"@)]'
+CONTRACTS = {
+    'into_http': [
+        ('H1_trailers_only_response_is_200_grpc', 'r.status == http::StatusCode::OK && r.headers@.contains_key("content-type"@) && r.headers@["content-type"@] == %s' % CT, ['C03', 'C04', 'C12']),
+        ('H2_carries_exactly_this_status', 'written(self, %s.insert("content-type"@, %s), r.headers@)' % (EMPTY, CT), ['C03', 'C04', 'C12', 'C02']),
+        ('H3_no_body', 'r.body == B::default_spec()', ['C03', 'C12']),
+    ],
+    'to_header_map': [('M1_written_from_empty', 'r matches Ok(h) && written(*self, %s, h@)' % EMPTY, ['C04', 'C03', 'C02'])],
+    'from_header_map': [('R1_total_and_exact', 'read(header_map@, r)', ['C04', 'C02'])],
+    'add_header': [
+        ('A1_never_fails_values_always_legal', 'r is Ok', ['C04', 'C03']),
+        ('A2_written', 'written(*self, old(header_map)@, final(header_map)@)', ['C04', 'C03', 'C08', 'C02']),
+    ],
+    'infer_grpc_status': [
+        ('I1_status_from_trailers_wins',
+         '''trailers is Some && trailers->Some_0@.contains_key("grpc-status"@) ==> match r {
+                Ok(()) => msg_ok(trailers->Some_0@) && det_ok(trailers->Some_0@) && code_of_bytes(trailers->Some_0@["grpc-status"@][0]) == Code::Ok,
+                Err(Some(st)) => read(trailers->Some_0@, Some(st)) && st.code != Code::Ok,
+                Err(None) => false,
+            }''', ['C04', 'C02']),
+        ('I2_http_status_table',
+         '''(trailers is None || !trailers->Some_0@.contains_key("grpc-status"@)) ==> match r {
+                Ok(()) => false,
+                Err(None) => status_code.0 == 200,
+                Err(Some(st)) => status_code.0 != 200 && st.code == code_of_http(status_code),
+            }''', ['C04']),
+    ],
+}
+CTOR = 'r.code == Code::%s && r.details@.len() == 0 && r.metadata.headers@ == ' + EMPTY
+CTORS = [('ok', 'Ok'), ('cancelled', 'Cancelled'), ('unknown', 'Unknown'), ('invalid_argument', 'InvalidArgument'),
+         ('deadline_exceeded', 'DeadlineExceeded'), ('not_found', 'NotFound'), ('already_exists', 'AlreadyExists'),
+         ('permission_denied', 'PermissionDenied'), ('resource_exhausted', 'ResourceExhausted'),
+         ('failed_precondition', 'FailedPrecondition'), ('aborted', 'Aborted'), ('out_of_range', 'OutOfRange'),
+         ('unimplemented', 'Unimplemented'), ('internal', 'Internal'), ('unavailable', 'Unavailable'),
+         ('data_loss', 'DataLoss'), ('unauthenticated', 'Unauthenticated')]
+
+STATUS_DEBUG = '''// A-fmt-10: Debug for Status is diagnostics only (needed by Result::unwrap's bound)
+#[verifier::external]
+impl core::fmt::Debug for Status { fn fmt(&self, f: &mut core::fmt::Formatter<'_>) -> core::fmt::Result { unimplemented!() } }
+'''
+
+
+def _ens(clauses):
+    return ',\n            '.join(c[1] for c in clauses)
+
+
+def status_decls(u: Unit):
+    """Code, Status (real declarations) + the spec vocabulary of unit status"""
+    S = 'tonic/src/status.rs'
+    u.item(S, 'enum', 'Code', derives='Clone, Copy, PartialEq, Eq, Structural')
+    u.raw(STATUS_SHIMS)
+    u.raw(STATUS_SPEC)
+    u.item(S, 'struct', 'Status', edits=[lambda t: t.sub_code('R12', r"Option<Arc<dyn Error \+ Send \+ Sync \+ 'static>>", 'Option<SourceBox>')])
+    u.raw(STATUS_DEBUG)
+    u.raw(STATUS_REL)
+
+
+def status_assumed(u: Unit):
+    """tonic::Status functions as contracts only (proved in unit status)"""
+    ctors = '\n'.join(
+        '    #[verifier::external_body]\n    pub fn %s<M>(message: M) -> (r: Status) ensures %s { unimplemented!() }' % (n, CTOR % v)
+        for n, v in CTORS)
+    u.raw('''
+// A-tonic-status-01: contracts of tonic::Status / infer_grpc_status, PROVED on the real bodies in unit `status`
+// (identical clause text, units/common.py CONTRACTS); linked here as callee contracts only.
+impl Status {
+%s
+    #[verifier::external_body]
+    pub fn new<M>(code: Code, message: M) -> (r: Status) ensures r.code == code && r.details@.len() == 0 && r.metadata.headers@ == %s { unimplemented!() }
+    pub fn code(&self) -> (r: Code) ensures r == self.code { self.code }
+    pub fn metadata(&self) -> (r: &MetadataMap) ensures *r == self.metadata { &self.metadata }
+    pub fn metadata_mut(&mut self) -> (r: &mut MetadataMap) ensures *r == old(self).metadata, *final(r) == final(self).metadata,
+        final(self).code == old(self).code, final(self).message == old(self).message, final(self).details == old(self).details { &mut self.metadata }
+    #[verifier::external_body]
+    pub fn into_http<B: DefaultBody>(self) -> (r: http::Response<B>)
+        ensures
+            %s,
+    { unimplemented!() }
+    #[verifier::external_body]
+    pub fn to_header_map(&self) -> (r: Result<HeaderMap, Status>)
+        ensures
+            %s,
+    { unimplemented!() }
+    #[verifier::external_body]
+    pub fn from_header_map(header_map: &HeaderMap) -> (r: Option<Status>)
+        ensures
+            %s,
+    { unimplemented!() }
+    #[verifier::external_body]
+    pub fn add_header(&self, header_map: &mut HeaderMap) -> (r: Result<(), Status>)
+        ensures
+            %s,
+    { unimplemented!() }
+}
+pub mod status {
+    use crate::*;
+    #[verifier::external_body]
+    pub fn infer_grpc_status(trailers: Option<&HeaderMap>, status_code: http::StatusCode) -> (r: Result<(), Option<Status>>)
+        ensures
+            %s,
+    { unimplemented!() }
+}
+''' % (ctors, EMPTY, _ens(CONTRACTS['into_http']), _ens(CONTRACTS['to_header_map']), _ens(CONTRACTS['from_header_map']),
+       _ens(CONTRACTS['add_header']), _ens(CONTRACTS['infer_grpc_status'])))
